@@ -410,7 +410,10 @@ func runLease(s leaseScn) (line string) {
 						hs[inst].cancel()
 					} else {
 						if hs[inst].stopping.CompareAndSwap(false, true) {
-							go hs[inst].r1.Stop()
+							// (as for X: a call needing the phase mutex while Stop() waits for the loop would stall the virtual clock)
+							done := make(chan struct{})
+							go func() { hs[inst].r1.Stop(); close(done) }()
+							<-done
 						}
 					}
 				}
@@ -460,7 +463,131 @@ func errName2(err error) string {
 
 const sec = int64(time.Second)
 
+// leaseResize: v2 live reconfiguration around held leases - acquire, shrink (possibly to zero), let leases run
+// out or not, grow again, watch the figures for several lease durations.
+func leaseResize(r *rng) leaseScn {
+	s := leaseScn{gen: 2, lease: 15 * sec}
+	ni := 1 + r.intn(2)
+	factor := uint32(r.pick(0, 1, 2, 5))
+	feff := factor
+	if feff == 0 {
+		feff = 1
+	}
+	parts := uint32(2 + r.intn(5))
+	shared := parts * feff
+	for i := 0; i < ni; i++ {
+		in := leaseInst{shared: shared, reserved: uint32(r.pick(0, 0, 3)), factor: factor, maxInterval: uint32(r.pick(50, 200))}
+		if r.chance(1, 4) {
+			in.pre, in.post = []int64{int64(r.pick(0, 100, 900)) * ms}, []int64{int64(r.pick(0, 100, 900)) * ms}
+		}
+		if r.chance(1, 6) {
+			in.provLat = int64(r.pick(100, 1000, 3000)) * ms
+		}
+		s.insts = append(s.insts, in)
+	}
+	t := int64(0)
+	for i := 0; i < ni; i++ {
+		s.script = append(s.script, histAct{t: t, act: fmt.Sprintf("S%d", i)})
+	}
+	t += 100 * ms
+	for i := 0; i < ni; i++ {
+		s.script = append(s.script, histAct{t: t, act: fmt.Sprintf("g%d:%d", i, shared+10)})
+		t += ms
+	}
+	rounds := 1 + r.intn(3)
+	for k := 0; k < rounds; k++ {
+		i := r.intn(ni)
+		t += int64(r.pick(2000, 4000, 8000)) * ms
+		s.script = append(s.script, histAct{t: t, act: "s"})
+		t += 100 * ms
+		s.script = append(s.script, histAct{t: t, act: fmt.Sprintf("c%d:%d", i, uint32(r.intn(int(parts)))*feff)})
+		if r.chance(1, 2) {
+			t += int64(r.pick(500, 3000)) * ms
+			s.script = append(s.script, histAct{t: t, act: fmt.Sprintf("g%d:0", i)})
+		}
+		t += int64(r.pick(1000, 8000, 16000, 20000)) * ms
+		s.script = append(s.script, histAct{t: t, act: "s"})
+		t += 100 * ms
+		s.script = append(s.script, histAct{t: t, act: fmt.Sprintf("c%d:%d", i, (parts+uint32(r.intn(3)))*feff)})
+		t += int64(r.pick(500, 2000)) * ms
+		s.script = append(s.script, histAct{t: t, act: "s"})
+		if r.chance(1, 2) {
+			t += 100 * ms
+			s.script = append(s.script, histAct{t: t, act: fmt.Sprintf("g%d:%d", i, shared+10)})
+		}
+	}
+	for k := 0; k < 5; k++ {
+		t += int64(r.pick(3000, 14999, 15001, 16000)) * ms
+		s.script = append(s.script, histAct{t: t, act: "s"})
+	}
+	s.end = t + int64(r.pick(1, 16))*sec
+	return s
+}
+
+// leaseContended: several instances compete for few partitions (saturated or nearly so) for a long time; peers
+// crash, stop or lower their demand in between, so that single partitions become free next to a needy instance.
+func leaseContended(r *rng) leaseScn {
+	s := leaseScn{gen: 1 + r.intn(2), lease: 15 * sec}
+	ni := 2 + r.intn(2)
+	parts := uint32(2 + r.intn(3))
+	for i := 0; i < ni; i++ {
+		in := leaseInst{shared: parts, reserved: 0, factor: uint32(r.pick(0, 1)), maxInterval: uint32(r.pick(20, 50))}
+		if r.chance(1, 4) {
+			in.pre, in.post = []int64{int64(r.pick(0, 10, 100)) * ms}, []int64{int64(r.pick(0, 10, 100)) * ms}
+		}
+		s.insts = append(s.insts, in)
+	}
+	t := int64(0)
+	for i := 0; i < ni; i++ {
+		s.script = append(s.script, histAct{t: t, act: fmt.Sprintf("S%d", i)})
+	}
+	t += 100 * ms
+	// demands: sum close to the number of partitions
+	left := int(parts)
+	for i := 0; i < ni; i++ {
+		d := 1
+		if i == ni-1 {
+			d = left
+		} else if left > ni-i {
+			d = 1 + r.intn(left-(ni-i)+1)
+		}
+		if d < 1 {
+			d = 1
+		}
+		left -= d
+		s.script = append(s.script, histAct{t: t, act: fmt.Sprintf("g%d:%d", i, d)})
+		t += int64(r.pick(1, 300, 2000)) * ms
+	}
+	for k := 0; k < 1+r.intn(3); k++ {
+		t += int64(r.pick(20000, 35000, 50000)) * ms
+		s.script = append(s.script, histAct{t: t, act: "s"})
+		i := r.intn(ni)
+		t += 100 * ms
+		switch r.intn(4) {
+		case 0:
+			s.script = append(s.script, histAct{t: t, act: fmt.Sprintf("K%d", i)})
+		case 1:
+			s.script = append(s.script, histAct{t: t, act: fmt.Sprintf("g%d:0", i)})
+		case 2:
+			s.script = append(s.script, histAct{t: t, act: fmt.Sprintf("g%d:%d", i, 1+r.intn(int(parts)))})
+		default:
+		}
+	}
+	for k := 0; k < 4; k++ {
+		t += int64(r.pick(5000, 15001, 20000)) * ms
+		s.script = append(s.script, histAct{t: t, act: "s"})
+	}
+	s.end = t + int64(r.pick(20, 40))*sec
+	return s
+}
+
 func leaseRandom(r *rng) leaseScn {
+	if r.chance(1, 5) {
+		return leaseResize(r)
+	}
+	if r.chance(1, 6) {
+		return leaseContended(r)
+	}
 	s := leaseScn{gen: 1 + r.intn(2), lease: 15 * sec}
 	ni := 1 + r.intn(3)
 	factor := uint32(r.pick(0, 1, 2, 5, 100))
